@@ -208,7 +208,13 @@ def run_c04(rep, tier, seed):
                 break
         if bad is None and died is not None:
             bad = (len(ans), ["<answer>"], f"process died / hung: {died.why}")
-        if bad:
+        if bad and any(x.startswith("parked") for x in bad[1]) and str(bad[2]).startswith(("done ", "timeout")) and died is None:
+            # the thread did not stop where the schedule wants it: the code no longer passes that point in that way
+            # (e.g. an entry that used to take two write(2) calls now takes one). That says nothing about the property;
+            # it is a broken tie between this schedule and the code
+            viol("correspondence", f"forced schedule `{name}` can no longer be forced: step `{lines[bad[0]]}` answered {bad[2]!r} instead of {bad[1]}",
+                 dict(script=lines, answers=ans, failing_line=bad[0], expected=" | ".join(bad[1]), observed=bad[2]))
+        elif bad:
             viol("oracle", f"forced schedule `{name}`: step `{lines[bad[0]] if bad[0] < len(lines) else '?'}` answered {bad[2]!r}",
                  dict(script=lines, answers=ans, failing_line=bad[0], expected=" | ".join(bad[1]), observed=bad[2]))
         rep.cov["traces_validated_against_impl"] += 1
